@@ -99,6 +99,7 @@ def make_doer(name, script, flavour, log, world, enter_raises=False, tock=0.0):
         def f(tymth=None, tock=0.0, **opts):
             log.add('enter', name, tymth())
             if enter_raises:
+                log.add('abort', name)
                 log.add('exit', name)
                 raise Boom(name)
             try:
@@ -393,7 +394,10 @@ def scen_static(rnd, n, flavours=('doer', 'redoer', 'func'), nest=False, tocks=(
             script.append(('x',))
         else:
             script += [('y', rnd.choice(tocks)) for _ in range(12)]
-        leaves.append(leaf('L%d' % i, script, fl))
+        lf = leaf('L%d' % i, script, fl)
+        if n >= 2 and rnd.random() < 0.06:
+            lf['enter_raises'] = True       # a failing enter (at start-up)
+        leaves.append(lf)
     return leaves
 
 
@@ -452,7 +456,7 @@ def run_checks(tier='quick', seed=0):
         has_open = any(len(l['script']) > 8 for l in leaves)
         if has_open and limit is None:
             limit = 4.0
-        inp = dict(leaves=[(l['name'], l['flavour'], l['script'][:6]) for l in leaves], tock=tock, tyme=tyme0, limit=limit)
+        inp = dict(leaves=[(l['name'], l['flavour'] + ('!enter-raises' if l.get('enter_raises') else ''), l['script'][:6]) for l in leaves], tock=tock, tyme=tyme0, limit=limit)
         key = repr(inp)
         distinct.add(key)
         if it < 4:
@@ -469,6 +473,10 @@ def run_checks(tier='quick', seed=0):
         # ---- C03 cycle model (only when no doer raised: a raise stops the run mid-way)
         ret = [e for e in ev if e[0] == 'RETURN'][0]
         raised = ret[1] is not None
+        if any(l.get('enter_raises') for l in leaves):
+            if not raised:
+                v('C01/failing-enter-swallowed', inp, ret)
+            continue
         end_tyme = F(ret[3])
         for l in leaves:
             got = [F(e[2]) for e in ev if e[0] == 'recur' and e[1] == l['name']]
